@@ -244,4 +244,6 @@ def run(prog, ctx):
         else:
             ctx.fail("V5", "stored %r reads back as %s" % (lit, truth), gb.where,
                      "the getter does not map %r to %s (recognised there: %s)" % (lit, truth, sorted(got)), key="bool-roundtrip:%s" % lit)
+    from rules.C09 import r5_lowering_helper
+    r5_lowering_helper(prog, ctx, "V5")
     ctx.floor("C08 typed setter/getter pairs", rows, 6)
